@@ -259,6 +259,12 @@ fn defined_lengths(t: &mut Tally) {
         ("empty defined-length sequence", [el((0x0008, 0x1115), b"SQ", &[]), el((0x0010, 0x0020), b"LO", b"ID")].concat()),
         ("defined-length item holding an undefined-length sequence", [el((0x0008, 0x1115), b"SQ", &item_defined(&[leaf2.clone(), sq_undefined((0x0008, 0x1140), &[item_undefined(&leaf)])].concat())), el((0x0010, 0x0020), b"LO", b"ID")].concat()),
         ("undefined-length sequence holding a defined-length item with a defined-length sequence", [sq_undefined((0x0008, 0x1115), &[item_defined(&[leaf2.clone(), el((0x0008, 0x1140), b"SQ", &item_defined(&leaf))].concat())]), el((0x0010, 0x0020), b"LO", b"ID")].concat()),
+        ("encapsulated pixel data followed by a defined-length sequence whose defined-length item holds a defined-length sequence", [
+            vec![0xE0, 0x7F, 0x10, 0x00, b'O', b'B', 0, 0, 0xFF, 0xFF, 0xFF, 0xFF, 0xFE, 0xFF, 0x00, 0xE0, 0, 0, 0, 0, 0xFE, 0xFF, 0x00, 0xE0, 2, 0, 0, 0, 7, 8, 0xFE, 0xFF, 0xDD, 0xE0, 0, 0, 0, 0],
+            el((0xFFFA, 0xFFFA), b"SQ", &item_defined(&[leaf2.clone(), el((0x0008, 0x1140), b"SQ", &item_defined(&leaf))].concat()))].concat()),
+        ("encapsulated pixel data followed by an undefined-length sequence whose defined-length item holds a defined-length sequence", [
+            vec![0xE0, 0x7F, 0x10, 0x00, b'O', b'B', 0, 0, 0xFF, 0xFF, 0xFF, 0xFF, 0xFE, 0xFF, 0x00, 0xE0, 0, 0, 0, 0, 0xFE, 0xFF, 0x00, 0xE0, 2, 0, 0, 0, 7, 8, 0xFE, 0xFF, 0xDD, 0xE0, 0, 0, 0, 0],
+            sq_undefined((0xFFFA, 0xFFFA), &[item_defined(&[leaf2.clone(), el((0x0008, 0x1140), b"SQ", &item_defined(&leaf))].concat())])].concat()),
         ("two nested defined-length containers ending at the same offset, last in the stream", el((0x0008, 0x1115), b"SQ", &item_defined(&el((0x0008, 0x1140), b"SQ", &item_defined(&leaf))))),
     ];
     let ts = entries::EXPLICIT_VR_LITTLE_ENDIAN.erased();
